@@ -40,7 +40,7 @@ ASSUMPTIONS = [
     'non-centred leaves are mapped by the leaf class\' own compute_individual_parameters with the parameters the '
     'reference layout assigns to that leaf (wrappers\' transforms are C05/C07)']
 REQUIRED = ['em:gauss', 'em:mult', 'em:cm', 'em:lognorm', 'em:reduced', 'steer:cm', 'pop:gauss', 'pop:lognorm',
-            'pop:trunc', 'pop:pooled', 'pop:hetero', 'noncentered', 'cov', 'comp', 'red', 'steer:trunc', 'trunc_far_tail',
+            'pop:trunc', 'pop:pooled', 'pop:hetero', 'noncentered', 'cov', 'comp', 'red', 'steer:trunc', 'trunc_far_tail', 'trunc_far_tail:beyond_cdf_underflow',
             'covmode:tile', 'covmode:rows', 'cov_units:tiny:tile', 'late_n_ids']
 EM_KINDS = ['gauss', 'mult', 'cm', 'lognorm']
 SEEDS = st.integers(0, 2 ** 31 - 2)
@@ -107,7 +107,7 @@ def _elem_theta(draw, leaf, n_ids):
         sig = draw(gen.vec(gen.logu(1e-2, 1e2), d))
         if gen.chance(draw, 0.12):
             # far upper tail of the Gaussian (legitimate support; naive inverse-CDF samplers break here)
-            z = draw(gen.vec(gen.real(-8, -5), d))
+            z = draw(gen.vec(gen.real(-8, -5) if gen.chance(draw, 0.6) else gen.real(-60, -8), d))
         elif gen.chance(draw, 0.75):
             z = draw(gen.vec(gen.real(-1, 2), d))
         else:
@@ -185,6 +185,19 @@ def _spec(draw):
 
 def strategy(tier):
     return _spec()
+
+
+def extra_cases(tier):
+    """Truncated Gaussians whose location lies 38 to 60 standard deviations below the truncation point (the plain
+    normal CDF underflows to 0 there; the documented density, its mean and its std. stay ordinary numbers), in every
+    run."""
+    out = []
+    for k, (z, sig, n_dim, n_ids, ns) in enumerate([(-38.5, 1.0, 1, 1, None), (-45.0, 0.3, 1, 3, 20), (-59.0, 7.0, 2, 2, 7),
+                                                    (-40.0, 25.0, 1, 1, 50)]):
+        theta = [gen.r6(z * sig * (1 + 0.1 * d)) for d in range(n_dim)] + [sig] * n_dim
+        out.append(dict(mode='pop', pop=dict(kind='trunc', n_dim=n_dim), n_ids=n_ids, theta=theta, cov=None, covmode=None,
+                        ns=ns, seed=11 + k))
+    return out
 
 
 # =============================================================================================
@@ -307,6 +320,8 @@ def classify(spec):
             labs.append('steer:trunc')
         if lf['kind'] == 'trunc' and np.any(lf['P'][:, 0] / lf['P'][:, 1] <= -5):
             labs.append('trunc_far_tail')
+            if np.any(lf['P'][:, 0] / lf['P'][:, 1] <= -38):
+                labs.append('trunc_far_tail:beyond_cdf_underflow')
         if lf['kind'] == 'hetero' and spec['n_ids'] >= 2:
             labs.append('hetero_table')
     if spec['ns'] is None:
@@ -602,6 +617,35 @@ def _check_pop(case):
         if cv is not None:
             case.true(np.array_equal(cv, cov[0]), 'sample() modified the covariate array it was given',
                       kind='input_modified')
+
+    # the log-likelihood scores what the sampler draws: one sampled population of n_ids individuals (each with the
+    # parameters their covariates dictate), scored by the model itself, against the documented log-density of the samples
+    if not any(lf['kind'] == 'hetero' for lf in leaves):
+        with case.clause('pop_scored_density'):
+            row = np.arange(n_ids) % R
+            cvs = None if cov is None else cov[row].copy()
+            xs = call(n_ids, s['seed'], cvs)
+            case.equal(xs.shape, (n_ids, n_dim), 'shape of a sampled population', kind='shape')
+            want = 0.0
+            for li, lf in enumerate(leaves):
+                v = xs[:, lf['d0']:lf['d0'] + lf['n_dim']]
+                mu = lf['P'][row, 0, :]
+                k = lf['kind']
+                if k == 'pooled':
+                    continue
+                sg = lf['P'][row, 1, :]
+                if k in ('gauss', 'lognorm') and not lf['centered']:
+                    want += float(np.sum(sps.norm.logpdf(v)))
+                elif k == 'gauss':
+                    want += float(np.sum(sps.norm.logpdf(v, loc=mu, scale=sg)))
+                elif k == 'lognorm':
+                    want += float(np.sum(sps.lognorm.logpdf(v, s=sg, scale=np.exp(mu))))
+                else:
+                    want += float(np.sum(sps.norm.logpdf(v, loc=mu, scale=sg) - sps.norm.logcdf(mu / sg)))
+            kw = {} if cvs is None else {'covariates': cvs.copy()}
+            got = m.compute_log_likelihood(theta.copy(), xs.copy(), **kw)
+            case.close(float(got), want, rtol=1e-8, atol=1e-9,
+                       what='log-likelihood of a sampled population of %d individuals vs the documented log-density' % n_ids)
 
     # whole-number parameters typed as integers give the same seeded samples as the same numbers as floats
     if cov is None:
